@@ -166,7 +166,7 @@ func (ex *Exec) callFunction(fr *frame, fn *ssa.Function, args []Val, bind []Val
 		}
 	}
 	if ex.inSpec == 0 || true {
-		if ct := ex.Cfg.Contracts[fn]; ct != nil && ex.Cfg.Modular[fn] && ex.TopFn != fn {
+		if ct := ex.Cfg.Contracts[fn]; ct != nil && ex.Cfg.Modular[fn] && ex.TopFn != fn && !(ct.InlineOwn && ex.TopFn != nil && sameModule(ex.TopFn, fn)) {
 			return ex.applyContract(fr, fn, ct, args, ins)
 		}
 	}
@@ -626,3 +626,26 @@ var effectFreePrefixes = []string{
 	"regexp.",
 	"math.",
 }
+
+func modOfFn(fn *ssa.Function) string {
+	for fn.Parent() != nil {
+		fn = fn.Parent()
+	}
+	p := ""
+	if fn.Pkg != nil {
+		p = fn.Pkg.Pkg.Path()
+	} else if fn.Object() != nil && fn.Object().Pkg() != nil {
+		p = fn.Object().Pkg().Path()
+	}
+	i := strings.Index(p, "/x/")
+	if i < 0 {
+		return p
+	}
+	rest := p[i+3:]
+	if j := strings.Index(rest, "/"); j >= 0 {
+		rest = rest[:j]
+	}
+	return rest
+}
+
+func sameModule(a, b *ssa.Function) bool { return modOfFn(a) == modOfFn(b) }
